@@ -330,7 +330,8 @@ func c27R3(c *engine.Ctx, p *poolFns) {
 		if grows {
 			c.Check(a.fn == p.release, "C27.R3", key, st.Pos(), "the free list may grow only in release (found in %s)", engine.FuncID(a.fn))
 		} else {
-			c.Check(a.fn == p.pop || a.fn == p.dead, "C27.R3", key, st.Pos(), "the free list may shrink only in pop and dead (found in %s)", engine.FuncID(a.fn))
+			// (or in an unexported helper that only pop/dead call: their lines, moved)
+			c.Check(a.fn == p.pop || a.fn == p.dead || onlyCalledFrom(a.fn, p.all, p.pop, p.dead), "C27.R3", key, st.Pos(), "the free list may shrink only in pop and dead (found in %s)", engine.FuncID(a.fn))
 		}
 	}
 	// pop: returns free[l-1] and stores free[:l-1]
